@@ -573,7 +573,11 @@ func c14Shortest(c *Ctx, idx int) {
 	if err != nil {
 		return
 	}
-	carriers := []any{json.Number(exact), x, dec, json.Number(exact + "0")}
+	padded := exact + "0"
+	if !strings.Contains(exact, ".") {
+		padded = exact + ".0" // (x is an integer: a trailing zero needs the point)
+	}
+	carriers := []any{json.Number(exact), x, dec, json.Number(padded)}
 	if float64(float32(x)) == x {
 		carriers = append(carriers, float32(x))
 	}
